@@ -71,6 +71,20 @@ pub fn gen_root(rng: &mut Rng) -> Game {
 
 fn kset(rng: &mut Rng, refr: &SbRun, full_limit: u64) -> (Vec<u64>, bool) {
     let kmax = refr.queries;
+    if full_limit == 1 {
+        // deep mode (D >= 5): runs are dear, so only the acceptance tests and a small sample
+        let mut ks: Vec<u64> = vec![];
+        for q in refr.send_q.iter().rev().take(4) {
+            ks.push(q.saturating_sub(1));
+            ks.push(*q);
+        }
+        for _ in 0..10 {
+            ks.push(rng.below(kmax + 1));
+        }
+        ks.sort();
+        ks.dedup();
+        return (ks, false);
+    }
     if kmax <= full_limit {
         return ((0..=kmax).collect(), true);
     }
